@@ -365,7 +365,7 @@ Section Main.
   Proof.
     destruct q as [s|]; cbn [stage_head]; [|discriminate].
     destruct (s_with s) eqn:Hw; [|discriminate].
-    destruct (s_from s) as [|[|k' rest] alias| | |] eqn:Hf; try discriminate.
+    destruct (s_from s) as [|[|k' rest] alias| | | |] eqn:Hf; try discriminate.
     destruct (blind_select s) eqn:Hb; [|discriminate]. intros H; inversion H; subst. eauto 10.
   Qed.
 
